@@ -1,0 +1,74 @@
+// Verification hooks (cargo feature `verif-hooks`): lets an external harness construct a `Node` over
+// a `Network` handle whose `SwarmDriver` it steps by hand, and call the node's validation /
+// dispatch code directly. Purely additive pass-throughs; nothing here is used by the node.
+
+use super::*;
+pub use crate::error::Error as NodeError;
+
+#[derive(Clone)]
+pub struct VerifNode {
+    node: Node,
+    peers_connected: Arc<AtomicUsize>,
+}
+
+impl VerifNode {
+    pub fn new(network: Network, reward_address: RewardsAddress, evm_network: EvmNetwork) -> Self {
+        let inner = NodeInner {
+            events_channel: NodeEventsChannel::default(),
+            initial_peers: vec![],
+            network,
+            #[cfg(feature = "open-metrics")]
+            metrics_recorder: None,
+            reward_address,
+            evm_network,
+        };
+        Self {
+            node: Node {
+                inner: Arc::new(inner),
+            },
+            peers_connected: Arc::new(AtomicUsize::new(0)),
+        }
+    }
+
+    pub fn network(&self) -> &Network {
+        self.node.network()
+    }
+
+    /// The client-upload path (`NetworkEvent::UnverifiedRecord`).
+    pub async fn validate_and_store_record(
+        &self,
+        record: libp2p::kad::Record,
+    ) -> std::result::Result<(), NodeError> {
+        self.node.validate_and_store_record(record).await
+    }
+
+    /// The replication path (a fetched record).
+    pub async fn store_replicated_in_record(
+        &self,
+        record: libp2p::kad::Record,
+    ) -> std::result::Result<(), NodeError> {
+        self.node.store_replicated_in_record(record).await
+    }
+
+    /// The node's real network-event dispatcher.
+    pub fn handle_network_event(&self, event: NetworkEvent) {
+        self.node.handle_network_event(event, &self.peers_connected)
+    }
+
+    pub async fn handle_query(
+        network: &Network,
+        query: Query,
+        payment_address: RewardsAddress,
+    ) -> Response {
+        Node::handle_query(network, query, payment_address).await
+    }
+
+    pub fn calculate_get_closest_peers(
+        peer_addrs: Vec<(PeerId, Vec<Multiaddr>)>,
+        target: NetworkAddress,
+        num_of_peers: Option<usize>,
+        range: Option<[u8; 32]>,
+    ) -> Vec<(NetworkAddress, Vec<Multiaddr>)> {
+        Node::calculate_get_closest_peers(peer_addrs, target, num_of_peers, range)
+    }
+}
